@@ -1,4 +1,4 @@
 SPECIFICATION Spec
 CONSTANTS NOps = 2  IsWrite = FALSE  RegisterFirst = FALSE  DestructOnDone = TRUE  ErrnoFix = TRUE  Feeds = 2  WithFault = TRUE
-INVARIANTS IoCompletesExactlyOnce BytesAreTrue ErrorIsOsError DoneOnlyIfStopFired NoStaleKernelReference NoTouchAfterFree LaterActivityAffectsOnlyLaterOps QueueCountsConsistent
+INVARIANTS NoStaleKernelReference
 CHECK_DEADLOCK FALSE
